@@ -111,7 +111,7 @@ PROPS["C09"] = dict(
     proof_files=["PlutusData_proofs.v"],
     check_files=["C09_check.v"],
     theorems=["C09_decode_encode", "C09_int_any_size", "C09_bytes_any_length", "C09_constr_tags",
-              "C09_fields_in_declaration_order"],
+              "C09_fields_in_declaration_order", "C09_map_entries_in_order", "C09_list_elements_in_order"],
     partial=["that the implementation's bytes are the model encoder's bytes is byte-for-byte correspondence (exhaustive on constructor index 0..140 and byte lengths 0..100), not a theorem about pallas"],
     trusted_base=TB_COMMON + ["pallas' CBOR writer is environment: the model re-implements heads, tags, definite arrays/maps, bignum tags and 64-byte chunking and is compared byte for byte",
                               "the front-end leg trusts the generator's own denotation (constructor index = case position, fields in declaration order)"],
@@ -211,6 +211,7 @@ PROPS["C02"] = dict(
     classify=_cls({111: "output_lovelace_outside_u64", 112: "output_native_amount_negative_or_huge"}),
     check_names={101: "every output's lovelace and native amounts equal the exact value of their source expressions",
                  102: "fee exact", 103: "validity slots exact", 104: "mint field = mints - burns, class by class", 105: "metadata integers exact",
+                 106: "every withdrawal directive's amount is in the body under its reward account", 107: "every treasury donation's coin is the body's donation",
                  111: "an output's lovelace denotes a value outside [0, 2^64) and compilation succeeded",
                  112: "a native asset entry denotes a negative or >= 2^63 amount and compilation succeeded"},
 )
